@@ -71,13 +71,16 @@ def evalRun (kv : List (String × String)) : Option String := do
   let tail := if op = .acmeFinalize then s!" acme={d.acmeCerts} valid={b d.orderValid}" else s!" rev={b d.revoked} reuse={reuse}"
   pure (head ++ tail ++ s!" trace={trace r.1.log}")
 
-/-- collapse runs of webhook steps: the source has one call per webhook kind -/
+/-- collapse runs of webhook steps (the source has one call for all webhooks of a kind) and
+    runs of in-process checks (the extractor reports adjacent checks once) -/
 def collapse : List Kind → List Kind
-  | a :: b :: rest => if a = b ∧ a.isWebhook then collapse (b :: rest) else a :: collapse (b :: rest)
+  | a :: b :: rest =>
+    if a = b ∧ (a.isWebhook ∨ a = .check ∨ a = .acmeRead) then collapse (b :: rest) else a :: collapse (b :: rest)
   | l => l
 
-def renderSrc (ks : List Kind) : String :=
-  ",".intercalate ((collapse ks).map fun k => k.str ++ k.guard) ++ ";ret"
+def toks (ks : List Kind) : List String := (collapse ks).map fun k => k.str ++ k.guard
+
+def renderSrc (ks : List Kind) : String := ",".intercalate (toks ks ++ ["ret"])
 
 def one : Cfg := ⟨1, 1⟩
 
@@ -87,13 +90,18 @@ def evalSrc (fn : String) : String :=
   | "authorizeSign" => renderSrc authorizeSteps
   | "signX509" => renderSrc (signX509Steps one)
   | "authorizeRenew" => renderSrc authorizeRenewSteps
-  | "StoreRenewedCertificate" => renderSrc storeRenewedSteps
   | "renewContext" => renderSrc renewContextSteps
-  | "Revoke" => renderSrc revokeTokenSteps ++ "|" ++ renderSrc revokeSSHSteps
+  | "Revoke" => renderSrc revokeSourceOrder
   | "signSSH" => renderSrc (signSSHSteps one)
   | "renewSSH" => renderSrc renewSSHSteps
   | "rekeySSH" => renderSrc rekeySSHSteps
-  | "Finalize" => renderSrc (finalizeSteps 1 one)
+  | "Finalize" =>
+    -- UpdateStatus, then the order may already be valid (success return), then the rest;
+    -- the whole of signX509 is the single call SignWithContext
+    -- (Finalize calls db.CreateCertificate and db.UpdateOrder once each; their inner calls
+    --  — serial index, order read-back — are in acme/db/nosql and appear in the run traces)
+    ",".intercalate (["status!", "ret"] ++ toks (finalizePre 1) ++ ["sign!"] ++
+      toks (createCertificateSteps.take 1 ++ updateOrderSteps.drop 1) ++ ["ret"])
   | "DoWithContext" =>
     -- the client's decision table: first attempt × second attempt → allowed?
     let os := [Outcome.ok, .error, .timeout, .deny, .malformed]
